@@ -46,6 +46,10 @@ func main() {
 		os.Exit(2)
 	}
 	name := os.Args[1]
+	if name == "facts" {
+		runFacts(os.Args[2:])
+		return
+	}
 	fs := flag.NewFlagSet(name, flag.ExitOnError)
 	seed := fs.Int64("seed", 1, "PRNG seed")
 	n := fs.Int("n", 1000, "number of operations")
